@@ -732,7 +732,16 @@ class AsyncFIXConnection:
                     continue
 
                 is_sess_msg = replay_msg[FTag.MsgType] in noreply_msgs
-                if is_sess_msg or not await self.should_replay(replay_msg):
+                if is_sess_msg:
+                    continue
+                try:
+                    is_replayed = await self.should_replay(replay_msg)
+                except Exception:
+                    # application handler failed: resend must be completed anyway,
+                    #  the message is not replayed (covered by gap fill)
+                    self.log.exception(f"should_replay() failed: {replay_msg}")
+                    is_replayed = False
+                if not is_replayed:
                     continue
 
                 if gap_fill_begin < msg_seq_num:
